@@ -103,6 +103,6 @@ def handle (st : Unit) (j : Json) : Unit × Json :=
 where
   /-- `H.cleanup(in_place=True)` through the public step function (a frozen network raises at the
       first disabled mutator; `HG.cleanup` handles that with `guardF`) -/
-  guardCleanup (s : HG) (a b c d e : Bool) : Option (HG × Outcome) := HG.cleanup s a b c d e
+  guardCleanup (s : HG) (a b c d e : Bool) : Option (HG × Outcome) := cleanup' s a b c d e
 
 end Xgi.C19.Drive
